@@ -15,6 +15,7 @@ DRAIN = r"(alloc::vec::\{impl Vec<T,A>\}::(clear|truncate|drain|set_len)$|core::
 def run(F, R, ctx):
     _run(F, R, ctx)
     compaction_rule(F, R)
+    stats_flow_rule(F, R)
 
 
 def _run(F, R, ctx):
@@ -199,3 +200,45 @@ def compaction_rule(F, R):
                        "shrunk, so memory grows with the number of (cyclic) objects ever allocated although the reachable set "
                        "is bounded" % (fn.short(), bad[:2]), fn.loc(fn.blocks[c].get("line")), sample={"decisions": ndec})
     R.floor("C19.h", "compact-or-grow decisions", n, 3)
+
+
+def stats_flow_rule(F, R):
+    from . import c07
+    R.rule("C19.k", "what is marked is counted: the statistics Heap::mark returns (from which both free counts are recomputed as "
+                    "len − reached) are computed from every marker that ran — the value returned derives from the result of "
+                    "the parallel marker (when it is called) and from MarkAndSweepContext.stats of the context that was handed "
+                    "to Synchronizer::enumerate_stacks, whose sequential visitor marks everything reachable from the other "
+                    "threads' stacks. A marker whose count is dropped leaves the free count larger than the number of "
+                    "unmarked slots: FreeList::allocate then searches for a free slot that does not exist")
+    mark = F.one(r"^steel::values::closed::\{impl Heap\}::mark$")
+    enum = mark.call_blocks(r"\{impl Synchronizer\}::enumerate_stacks$", wrappers=True)
+    if not enum:
+        raise CheckError("anchor lost: Heap::mark no longer walks the other threads' stacks (enumerate_stacks)")
+    es = F.one(r"^steel::steel_vm::vm::\{impl Synchronizer\}::enumerate_stacks$")
+    visits = any(re.search(r"::visit$", cb["callee"]) and
+                 ("MarkAndSweepContext" in cb["callee"] or any("MarkAndSweepContext" in t for t in cb.get("targs", [])))
+                 for _, cb in lib.deep_calls(F, es, depth=2))
+    maps = c07._backward(mark)
+    org = c07._origins(mark, "_0", maps, depth=20)
+    # locals holding (a copy of) MarkAndSweepContext.stats
+    stats_locals = set()
+    for b in mark.blocks:
+        if b["c"]:
+            continue
+        if any(e[0] == "fld" and e[1] == "MarkAndSweepContext" and e[2] == "stats" for e in b["e"]):
+            for e in b["e"]:
+                if e[0] == "mv" and re.search(r"\.stats\b", e[2]):
+                    stats_locals.add(e[1].split(".")[0])
+    from_ctx = any(o.split(".")[0] in stats_locals for o in org)
+    par = [i for i, cb in mark.calls() if re.search(r"\{impl ParallelMarker\}::mark$", cb["callee"])]
+    par_dest = {re.match(r"_\d+", mark.blocks[i]["dest"]).group(0) for i in par if mark.blocks[i].get("dest")}
+    from_par = (not par) or any(o.split(".")[0] in par_dest for o in org)
+    R.inst("C19.k", "Heap::mark / the returned statistics include the sequential visitor's (other threads' stacks)",
+           (not visits) or from_ctx,
+           "Heap::mark returns statistics that do not derive from MarkAndSweepContext.stats although enumerate_stacks ran the "
+           "sequential visitor on that context: everything reached through another thread's stack is marked but not counted, "
+           "the free counts recomputed from `len − reached` are too large, and FreeList::allocate panics looking for a free "
+           "slot (three threads each keeping 20000 boxes alive)", mark.loc(), sample={"parallel_marker": bool(par)})
+    R.inst("C19.k", "Heap::mark / the returned statistics include the parallel marker's", from_par,
+           "Heap::mark calls the parallel marker but the statistics it returns do not derive from that call's result",
+           mark.loc(), sample=True)
